@@ -504,6 +504,13 @@ func (G *gen) forks(fx *fixture) {
 			addH("gap-3-5", empty, better, 3, 5)
 			addH("duplicate-heights", empty, better, 2, 2, 3)
 			addH("unsorted", empty, better, 4, 2, 3)
+			addH("descending-above-then-below-head", empty, better, head+5, head-1)
+			addH("descending-above-then-at-head", empty, better, head+2, head)
+			addH("descending-far-above-then-1", empty, better, head+1000, 1)
+			addH("descending-all-above", empty, better, head+3, head+2, head+1)
+			addH("descending-all-below", empty, better, 4, 3, 2)
+			addH("shuffled-around-head", empty, better, head+1, head-1, head+2, head)
+			addH("duplicates-descending", empty, better, head+1, head+1, head, head)
 			addH("head", empty, better, head)
 			addH("head-plus-1", empty, better, head+1)
 			addH("head-plus-2", empty, better, head+2)
